@@ -305,8 +305,12 @@ class SArray(SArrayBase):
         return SArray([-a for a in self.items], self.dtype)
 
     def __invert__(self):
+        if self.dtype.kind == "i":
+            return SArray([-_num(a) - 1 for a in self.items], self.dtype)  # bitwise NOT of a two's-complement integer
+        if self.dtype.kind == "f":
+            raise TypeError("ufunc 'invert' not supported for the input types, and the inputs could not be safely coerced to any supported types according to the casting rule ''safe''")
         if self.dtype.kind != "b":
-            raise Unsupported("~ on non-bool array")
+            raise Unsupported("~ on an array of dtype %s" % self.dtype)
         return SArray([s_not(a) for a in self.items], bool_)
 
     def __or__(self, o):
@@ -1180,6 +1184,13 @@ class Generator:
         self.memo = memo if memo is not None else {}
         self.seed = seed
         self.calls = 0
+
+    def __deepcopy__(self, memo):
+        # a copy of a numpy Generator continues the same stream: same mode, same seed, same position;
+        # the table of draws already made is shared so that original and copy agree
+        g = Generator(self.mode, self.log, self.memo, self.seed)
+        g.calls = self.calls
+        return g
 
     def _perm(self, n):
         if self.mode == "identity":
